@@ -6,7 +6,7 @@ from hypothesis import strategies as st
 
 from vf.api import Kind, Outcome, check, ok, trivial, violation
 from vf.lib import c37_refs as cr
-from vf.lib.c37_refs import NAMES, SYMREF, ZERO, sha
+from vf.lib.c37_refs import NAMES, ZERO, sha
 from vf.seam import ft
 
 PROPERTY = "C37"
@@ -26,7 +26,7 @@ RULE = ("sequential: a generated ref store (6 names incl. HEAD, a name that "
         "value is packed or symbolic; distinct by case hash. two-updaters: "
         "every (initial state, pair of conditional calls) of a fixed finite "
         "list x EVERY interleaving of the two callers' transport operations "
-        "with at most 2 (thorough: 4) pre-emptions; counted per schedule. "
+        "with at most 2 (thorough: 6) pre-emptions; counted per schedule. "
         "fetch-refs: every (ref present/absent, intervening update kind) "
         "combination pushed through InterToLocalGitRepository.fetch_refs.")
 ASSUMPTIONS = [
@@ -42,10 +42,10 @@ LEVEL_TEXT = ("Sequential semantics are sampled against an independent model "
               "and dulwich's on-disk container; the two-updater part "
               "enumerates all interleavings up to a pre-emption bound for a "
               "fixed list of call pairs, with a serialisability oracle.")
-LEVEL_NOTE = ("The pre-emption bound (2 quick / 4 thorough) is exhaustive for "
+LEVEL_NOTE = ("The pre-emption bound (2 quick / 6 thorough) is exhaustive for "
               "the race window of one compare-and-write; more pre-emptions "
               "are not explored.")
-REGISTERED = False
+REGISTERED = True
 NONTRIVIAL_FLOOR = {"quick": 300, "thorough": 5000}
 
 STALE_CACHE = "C37/cas-compares-with-stale-packed-refs-cache"
@@ -327,7 +327,7 @@ def run_two(case, env):
     ca = _concrete(model, init, pa)
     cb = _concrete(model, init, pb)
     serial = _serial_outcomes(model, ca, cb)
-    bound = 2 if env.tier == "quick" else 4
+    bound = 2 if env.tier == "quick" else 6
     base = env.newdir()
     counter = [0]
     noted = {}
